@@ -1,3 +1,45 @@
 import Gengo.Model.Loader
+import Gengo.Generated.Facts
+/-! # C01 – the parsed type universe is structurally faithful to the Go type checker -/
 namespace Gengo.C01
+open Gengo Gengo.Universe
+
+/-- two spellings of one Go scalar type -/
+def sameScalar (a b : String) : Bool :=
+  a = b || (a = "uint8" && b = "byte") || (a = "byte" && b = "uint8") || (a = "rune" && b = "int32") || (a = "int32" && b = "rune")
+
+/-- **builtin_never_other_type** (regenerated fact): in `builtins.Types` of the v1 module every key of
+kind Builtin is bound to a type object whose name is that same Go type (identical spelling, or the
+alias pairs byte/uint8 and rune/int32) – e.g. `int8` is not bound to `byte` (F1) -/
+theorem builtins_faithful_v1 :
+    Generated.builtinsV1.all (fun e => e.2.2.2 != "Builtin" || sameScalar e.1 e.2.2.1) = true := by decide
+
+theorem builtins_faithful_v2 :
+    Generated.builtinsV2.all (fun e => e.2.2.2 != "Builtin" || sameScalar e.1 e.2.2.1) = true := by decide
+
+/-- keys that share one object are the same Go type, so sharing never merges different types -/
+theorem builtins_sharing_sound_v1 :
+    Generated.builtinsV1.all (fun a => Generated.builtinsV1.all (fun b =>
+      a.2.1 != b.2.1 || (sameScalar a.1 b.1 && a.2.2.1 = b.2.2.1))) = true := by decide
+
+theorem builtins_sharing_sound_v2 :
+    Generated.builtinsV2.all (fun a => Generated.builtinsV2.all (fun b =>
+      a.2.1 != b.2.1 || (sameScalar a.1 b.1 && a.2.2.1 = b.2.2.1))) = true := by decide
+
+/-- the predeclared scalar types of Go -/
+def goScalars : List String := ["bool", "string", "int", "int8", "int16", "int32", "int64", "uint", "uint8", "uint16",
+  "uint32", "uint64", "uintptr", "byte", "rune", "float32", "float64", "complex64", "complex128"]
+
+/-- **builtins_complete** (regenerated fact): every predeclared scalar type of Go has an entry (F3) -/
+theorem builtins_complete_v1 : goScalars.all (fun s => Generated.builtinsV1.any (fun e => e.1 = s)) = true := by decide
+theorem builtins_complete_v2 : goScalars.all (fun s => Generated.builtinsV2.any (fun e => e.1 = s)) = true := by decide
+
+/-! ### names -/
+
+/-- a composite (anonymous) type keeps its whole spelling as name, in package "" -/
+theorem nameOf_anonymous (v2 : Bool) (s : Str) (h : anonPrefixes.any (fun p => p.isPrefixOf s) = true) :
+    nameOf v2 s = ⟨[], s⟩ := by
+  unfold nameOf nameOfV1 nameOfV2
+  cases v2 <;> simp [h]
+
 end Gengo.C01
